@@ -71,6 +71,13 @@ CLAIMED = {
         'permutations, reversal subsets, reference nodes / ground placements to the real objects (network solver, port impedance, DC and complex circuit solutions; '
         'state-space and transient results through the C10/C12 drivers) and compares with the base expectation pushed through those relations.',
    ref='DESIGN.md §6 C03', technique='TLA+ spec + TLC bounded model checking of the invariance relations; spec->code replay of transformed descriptions'),
+ 'C17': dict(
+   text='The TLA+ module Docs defines what a network description denotes (LoadNetwork: element per kind of the loader table; Cartesian and polar notations denote abs*u) and '
+        'that a document round trip is the identity; TLC checks that every notation of a number gives the same element and enumerates every kind x notation x optional field x '
+        'position, the circuit-loader kinds with parameter values, and all nested documents of depth <= 3 (dictionaries, lists, int/float/string/complex leaves).  Replay: '
+        'load_network (twice on the same object, and from a JSON file), to_complex (radians/degrees, twice), generate_component / undictify_circuit, serialize/deserialize/dump/load '
+        'in JSON and YAML; results compared with the specification and every argument snapshot compared before/after.',
+   ref='DESIGN.md §6 C17', technique='TLA+ spec + TLC exhaustive enumeration; spec->code scenario replay with argument snapshots'),
 }
 
 PENDING_REASON = 'check not built yet in this round (planned: TLA+ model + conformance replay, see DESIGN.md §6); no claim is made until it exists'
